@@ -26,7 +26,7 @@ func (g *mgen) coin(label string, num, den int) bool {
 	return rapid.IntRange(0, den-1).Draw(g.t, label) < num
 }
 func (g *mgen) pick(label string, xs ...string) string { return rapid.SampledFrom(xs).Draw(g.t, label) }
-func (g *mgen) intn(label string, lo, hi int) int     { return rapid.IntRange(lo, hi).Draw(g.t, label) }
+func (g *mgen) intn(label string, lo, hi int) int      { return rapid.IntRange(lo, hi).Draw(g.t, label) }
 
 func (g *mgen) word(label string) string {
 	return g.pick(label, "alpha", "bravo", "charlie", "delta", "echo", "fox", "golf", "hotel") + fmt.Sprint(g.intn(label+"n", 1, 9))
@@ -265,7 +265,7 @@ func serviceAttrTable() []attrGen {
 			var out []any
 			for _, f := range []string{"./env/a.env", "./env/b.env", "c.env"} {
 				if g.coin("ef", 1, 2) || (f == "c.env" && len(out) == 0) {
-					out = append(out, map[string]any{"path": f, "required": true})
+					out = append(out, map[string]any{"path": f, "required": !g.coin("efopt", 1, 4)})
 				}
 			}
 			return out
@@ -589,8 +589,10 @@ func (g *mgen) deploy() any {
 	return m
 }
 
-func (g *mgen) pick2f(label string, xs ...float64) float64 { return rapid.SampledFrom(xs).Draw(g.t, label) }
-func (g *mgen) pick2any(label string, xs ...any) any       { return rapid.SampledFrom(xs).Draw(g.t, label) }
+func (g *mgen) pick2f(label string, xs ...float64) float64 {
+	return rapid.SampledFrom(xs).Draw(g.t, label)
+}
+func (g *mgen) pick2any(label string, xs ...any) any { return rapid.SampledFrom(xs).Draw(g.t, label) }
 
 type modelOpts struct {
 	MaxServices int
@@ -691,7 +693,7 @@ func genModel(t *rapid.T, o modelOpts) map[string]any {
 			d := map[string]any{}
 			for j := 0; j < i; j++ {
 				if g.coin("dep", 1, 2) {
-					e := map[string]any{"condition": g.pick("depc", "service_started", "service_healthy", "service_completed_successfully"), "required": true}
+					e := map[string]any{"condition": g.pick("depc", "service_started", "service_healthy", "service_completed_successfully"), "required": !g.coin("depopt", 1, 4)}
 					if g.coin("depr", 1, 3) {
 						e["restart"] = true
 					}
